@@ -181,7 +181,7 @@ def skeleton_correspondence(ctx, decorated):
 def mechanisms(d: Decorated):
     """Which of the confirmed defect mechanisms are present in this decorated program (exact detectors)."""
     m = {"two_orders": False, "while_break": False, "for_bound": False, "float_mod": False, "returns_input": False,
-         "nested_domain": False}
+         "nested_domain": False, "dup_subgraph_output": False}
     for fp in d.funcs:
         f = d.onnx_function(fp["name"])
         if f is None or not hasattr(f, "to_function_proto"):
@@ -195,6 +195,7 @@ def mechanisms(d: Decorated):
         m["while_break"] |= c01_run.while_break_drops_condition(proto)
         m["returns_input"] |= c01_run.returns_graph_input(proto)
         m["nested_domain"] |= c01_run.nested_domain_not_imported(proto)
+        m["dup_subgraph_output"] |= c01_run.subgraph_lists_value_twice(proto)
         m["for_bound"] |= c01_run.for_bound_not_live(d.source, fp["name"], c01_gen.analysis_globals(d.prog))
         m["float_mod"] |= "float-mod-tensor" in fp.get("features", [])
     return m
@@ -209,6 +210,8 @@ def classify(mech, which, text):
         return "C01:function-proto:domain-used-only-in-subgraph-not-imported:fails-in-ort"
     if which == "function" and mech["returns_input"] and "it.GetName().empty()" in text:
         return "C01:function-proto:graph-input-returned-directly:fails-in-ort"
+    if mech["dup_subgraph_output"] and which in ("model", "function"):
+        return "C01:subgraph-lists-a-value-twice"
     if mech["two_orders"]:
         return "C01:loop-state-listed-in-two-orders"
     if mech["while_break"]:
@@ -308,6 +311,43 @@ def direct_oracle(ctx, d: Decorated, stats, n_sets, rng, worker):
     return flagged, mech
 
 
+LOOP_ELSE_SRC = c01_gen.HEADER + '''
+@script(default_opset=op)
+def cf_loop_else(x: FLOAT['D0']) -> FLOAT['D0']:
+    for i in range(2):
+        x = x + 1.0
+    else:
+        x = x - 10.0
+    return x
+'''
+
+
+def loop_else_probe(ctx, wd, worker, stats):
+    """A construct outside the generator's grammar (corpus of past findings): the else clause of a loop.  Either the
+    decorator refuses it, or the graph must run the else clause like Python does."""
+    import numpy as np
+    mod, exc = c01_run.load(wd, "c01_loop_else", LOOP_ELSE_SRC)
+    ctx.case(("corpus", "cf_loop_else"))
+    if exc is not None:
+        stats["loop_else_refused"] += 1
+        if type(exc).__name__ not in c01_run.DESCRIPTIVE:
+            ctx.violation(f"C01:loop-else:crash:{type(exc).__name__}", f"decorator crashed on a loop with an else clause: {exc!r}", {"source": LOOP_ELSE_SRC})
+        return
+    f = mod.cf_loop_else
+    x = np.array([0.0, 1.0], dtype=np.float32)
+    try:
+        eager = [np.asarray(f(x.copy()))]
+        status, val = worker.run(f.to_model_proto(), {"x": x})
+    except Exception as e:  # noqa: BLE001
+        ctx.tie_broken("harness", "loop-else-probe", repr(e))
+        return
+    if status != "ok" or not np.array_equal(eager[0], np.asarray(val[0])):
+        ctx.violation("C01:loop-else-clause-ignored",
+                      "the else clause of a for loop is executed by Python (eager) but dropped from the graph",
+                      {"source": LOOP_ELSE_SRC, "x": x.tolist(), "eager": eager[0].tolist(),
+                       "graph": np.asarray(val[0]).tolist() if status == "ok" else str(val)})
+
+
 def run(ctx):
     ctx.assume("kernel semantics of the ONNX operators are abstract in the theorems (Section variable); measured on onnxruntime (ORT_DISABLE_ALL) "
                "by the direct oracle for every generated program and input")
@@ -329,21 +369,31 @@ def run(ctx):
         prog = c01_gen.gen_program(rng, i, straight=(i % 10 == 0))
         programs.append((prog, c01_gen.to_source(prog)))
         ctx.case(c01_gen.shape_key(prog))
+    import time as _time
+    t0 = _time.time()
+    phases = {}
     analysis_correspondence(ctx, programs)
+    phases["analysis_correspondence_s"] = round(_time.time() - t0, 1)
     stats = collections.Counter()
     wd = c01_run.Workdir()
     c01_run.quiet_ort()
-    n_oracle = int((80 if quick else 600) * scale)
+    n_oracle = int((60 if quick else 600) * scale)
     input_seeds = [rng.getrandbits(64) for _ in programs]
     try:
+        t1 = _time.time()
         decorated = decorate_all(wd, programs)
+        phases["decorate_s"] = round(_time.time() - t1, 1)
+        t1 = _time.time()
         explained, broken, n = skeleton_correspondence(ctx, decorated)
+        phases["skeleton_correspondence_s"] = round(_time.time() - t1, 1)
+        t1 = _time.time()
         flagged_progs = set()
         mech_count = collections.Counter()
         import random as _random
         cache = c01_run.OrtSessionCache()
         cache.__enter__()
         worker = c01_run.OrtWorker(timeout=20)
+        loop_else_probe(ctx, wd, worker, stats)
         for d in decorated:
             if not d.accepted:
                 stats["refused"] += 1
@@ -358,6 +408,7 @@ def run(ctx):
                 flagged_progs.add(d.idx)
             if d.idx < 2:
                 ctx.sample({"source": d.source})
+        phases["direct_oracle_s"] = round(_time.time() - t1, 1)
         # a model/implementation disagreement: the direct oracle has been evaluated on the program; if the property
         # failed there it is reported above with its input, otherwise the tie is broken
         for d, fp, acc, loops in broken:
@@ -380,6 +431,6 @@ def run(ctx):
     ctx.cover(rule="typed random programs of the ONNX Script subset (see C02) x >= 3 input sets (rank 0-3, a size-1 and a size-0 dim, "
                    "0, +-1, negative, large, attribute values with and without defaults); four executions compared: eager, ModelProto on "
                    "onnxruntime, one-node model calling the FunctionProto, NumPy reading; distinct key = control-flow skeleton",
-              programs=n_prog, corpus_programs=n_corpus, mechanisms_present=dict(mech_count), **dict(stats))
+              programs=n_prog, corpus_programs=n_corpus, mechanisms_present=dict(mech_count), phase_seconds=phases, **dict(stats))
     if ctx.tier == "thorough":
         ctx.coqchk(["Props.C01"])
